@@ -106,11 +106,13 @@ def main():
     if out.strip():
         print("/repo dirty:", out)
         return 2
-    rc, out = sh("pgrep -f 'pytest -ra -q -p no:cacheprovider'")
+    rc, out = sh("pgrep -f '[p]ytest -ra -q -p no:cacheprovider'")
     if out.strip():
         print("the repository test suite is running against /repo: not touching it")
         return 2
     saved = backup("/repo", rels, "/tmp/ev_bak_%s%s" % (P, V))
+    # git checkout rewrites the tracked files it restores (new mtime): remember the mtimes so that rebuild_ext's ".pyx newer than .c" note stays quiet
+    mt = {f: os.path.getmtime(f) for f in glob.glob("/repo/TidalPy/**/*.pyx", recursive=True)}
     try:
         if not apply("/repo"):
             return 2
@@ -128,6 +130,9 @@ def main():
     finally:
         sh("git checkout -- .", cwd="/repo")
         restore(saved)
+        for f, t in mt.items():
+            if os.path.exists(f) and os.path.getmtime(f) != t:
+                os.utime(f, (t, t))
         rc, out = sh("git status --short | grep -v '^??'", cwd="/repo")
         print("== /repo restored", out.strip())
     return 0
